@@ -61,7 +61,8 @@ class Impl:
     def __init__(self):
         self.b = core.new_bptk()
         self.base = build_base()
-        self.b.register_scenario_manager({"M1": {"model": self.base}})
+        # base constants that merely restate the model's own value: scenarios without constants of their own inherit them
+        self.b.register_scenario_manager({"M1": {"model": self.base, "base_constants": {"k": 2.0}}})
         self.b.register_scenarios(scenarios={"A": {}, "B": {"points": {"lk": copy.deepcopy(P1)}}, "C": {"constants": {"k": 3.0}}}, scenario_manager="M1")
 
 
@@ -161,7 +162,7 @@ class System:
                 b.end_session()
                 ref.tainted.add((op[1], op[2]))
             elif k == "register_M2":
-                b.register_scenario_manager({"M2": {"model": impl.base}})
+                b.register_scenario_manager({"M2": {"model": impl.base, "base_constants": {"k": 2.0}}})
                 b.register_scenarios(scenarios={"A2": {}, "B2": {"points": {"lk": copy.deepcopy(P2)}}}, scenario_manager="M2")
                 ref.sc[("M2", "A2")] = dict(BASE)
                 ref.sc[("M2", "B2")] = dict(BASE, lk=P2)
